@@ -1,596 +1,38 @@
 #!/usr/bin/env python3
-"""py2coq: fail-closed translator from a small Python subset to Coq (Gallina).
+"""py2coq driver: regenerates coq/Gen/*.v from the repository sources on every run.
 
-Regenerates /verif/coq/Gen/*.v from /repo's current sources on every run, so that
-the theorems proved about those definitions are re-checked against what the code
-says now.  Anything outside the accepted subset raises Unsupported: the caller
-then reports the translator tie as broken (never silently skips).
-
-Accepted subset (see DESIGN 5.1): module/class string and numeric constants;
-Enum classes with auto(); dict/tuple literals of constants; functions whose body
-is a sequence of  `if`/`elif`/`else`, `return`, assignments to fresh locals,
-the accumulate pattern `X = set(); for v in range(a, b): if c: X.add(v)`;
-expressions over ints, floats, strings, booleans: comparison chains, `in`/`not in`
-on tuples and strings, `and`/`or`/`not`, arithmetic, `len`, `int`, `float`,
-`round`, `max`, `min`, constant subscripts, `str.isdigit/isdecimal`,
-`"{:02d}".format(n)`, conditional expressions.
-
-Types: 'int' (Z), 'float' (PrimFloat), 'str' (string), 'bool', 'intset' (list Z).
-"""
-import ast
+Usage: py2coq.py [repo] [outdir].  The generators live in tools/gen_*.py (each exposes
+GENERATORS = {file name: function(repo) -> Coq text}); the accepted Python subset and the
+expression/statement translators are in tools/py2coq_core.py.  Fail closed: a generator
+that raises leaves a file that does not compile and the driver exits 1."""
+import glob
+import importlib
 import os
 import sys
 
-
-class Unsupported(Exception):
-    pass
-
-
-def fail(node, why):
-    line = getattr(node, 'lineno', '?')
-    raise Unsupported('line {}: {} ({})'.format(line, why, ast.dump(node)[:120]))
+HERE = os.path.dirname(os.path.abspath(__file__))
+sys.path.insert(0, HERE)
+from py2coq_core import Unsupported  # noqa: E402
 
 
-def coq_string(s):
-    for ch in s:
-        if ord(ch) > 126 or (ord(ch) < 32):
-            raise Unsupported('non printable-ASCII character in string constant %r' % s)
-    return '"' + s.replace('"', '""') + '"'
-
-
-def coq_z(n):
-    return '(%d)' % n if n < 0 else '%d' % n
-
-
-def coq_float(x):
-    import math
-    if math.isinf(x) or math.isnan(x):
-        raise Unsupported('inf/nan literal')
-    h = float(x).hex()
-    return '(%s)%%float' % h
-
-
-class Expr:
-    """Expression translator with a small type inference."""
-
-    def __init__(self, env, consts=None, funcs=None, float_mode=False):
-        self.env = dict(env)          # name -> type
-        self.consts = consts or {}    # dotted name -> (coq text, type)
-        self.funcs = funcs or {}      # python callee name -> (coq name, [argtypes], rettype)
-        self.float_mode = float_mode
-
-    def tr(self, n):
-        m = getattr(self, 'tr_' + type(n).__name__, None)
-        if m is None:
-            fail(n, 'unsupported expression')
-        return m(n)
-
-    # leaves
-    def tr_Constant(self, n):
-        v = n.value
-        if isinstance(v, bool):
-            return ('true' if v else 'false', 'bool')
-        if isinstance(v, int):
-            return (coq_z(v), 'int')
-        if isinstance(v, float):
-            return (coq_float(v), 'float')
-        if isinstance(v, str):
-            return (coq_string(v), 'str')
-        fail(n, 'constant type')
-
-    def tr_Name(self, n):
-        if n.id in self.env:
-            return (n.id, self.env[n.id])
-        if n.id in self.consts:
-            return self.consts[n.id]
-        fail(n, 'unknown name')
-
-    def tr_Attribute(self, n):
-        dotted = self.dotted(n)
-        if dotted in self.consts:
-            return self.consts[dotted]
-        fail(n, 'unknown attribute')
-
-    def dotted(self, n):
-        if isinstance(n, ast.Name):
-            return n.id
-        if isinstance(n, ast.Attribute):
-            return self.dotted(n.value) + '.' + n.attr
-        fail(n, 'not a dotted name')
-
-    def tr_Tuple(self, n):
-        fail(n, 'bare tuple')
-
-    # coercions
-    def as_float(self, t):
-        s, ty = t
-        if ty == 'float':
-            return s
-        if ty == 'int':
-            return '(z2f %s)' % s
-        raise Unsupported('cannot use %s as float: %s' % (ty, s))
-
-    def as_bool(self, t, node):
-        s, ty = t
-        if ty == 'bool':
-            return s
-        if ty == 'str':
-            return '(negb (String.eqb %s ""))' % s
-        if ty == 'int':
-            return '(negb (Z.eqb %s 0))' % s
-        fail(node, 'truthiness of ' + ty)
-
-    # operators
-    def tr_BoolOp(self, n):
-        parts = [self.as_bool(self.tr(v), v) for v in n.values]
-        op = ' && ' if isinstance(n.op, ast.And) else ' || '
-        return ('(' + op.join(parts) + ')', 'bool')
-
-    def tr_UnaryOp(self, n):
-        if isinstance(n.op, ast.Not):
-            return ('(negb %s)' % self.as_bool(self.tr(n.operand), n), 'bool')
-        if isinstance(n.op, ast.USub):
-            s, ty = self.tr(n.operand)
-            if ty == 'int':
-                return ('(Z.opp %s)' % s, 'int')
-            if ty == 'float':
-                return ('(PrimFloat.opp %s)' % s, 'float')
-        fail(n, 'unary operator')
-
-    def tr_BinOp(self, n):
-        a, b = self.tr(n.left), self.tr(n.right)
-        opn = type(n.op).__name__
-        if a[1] == 'int' and b[1] == 'int' and opn in ('Add', 'Sub', 'Mult'):
-            f = {'Add': 'Z.add', 'Sub': 'Z.sub', 'Mult': 'Z.mul'}[opn]
-            return ('(%s %s %s)' % (f, a[0], b[0]), 'int')
-        if 'float' in (a[1], b[1]) or (opn == 'Div' and a[1] in ('int', 'float')):
-            fa, fb = self.as_float(a), self.as_float(b)
-            f = {'Add': 'PrimFloat.add', 'Sub': 'PrimFloat.sub', 'Mult': 'PrimFloat.mul',
-                 'Div': 'PrimFloat.div', 'Mod': 'py_fmod'}.get(opn)
-            if f is None:
-                fail(n, 'float operator')
-            return ('(%s %s %s)' % (f, fa, fb), 'float')
-        fail(n, 'binary operator on %s,%s' % (a[1], b[1]))
-
-    def cmp1(self, op, a, b, node):
-        opn = type(op).__name__
-        if opn in ('In', 'NotIn'):
-            r = self.contains(a, b, node)
-            return r if opn == 'In' else '(negb %s)' % r
-        ta, tb = a[1], b[1]
-        if ta == 'str' and tb == 'str' and opn in ('Eq', 'NotEq'):
-            r = '(String.eqb %s %s)' % (a[0], b[0])
-            return r if opn == 'Eq' else '(negb %s)' % r
-        if ta == 'int' and tb == 'int':
-            f = {'Eq': 'Z.eqb', 'Lt': 'Z.ltb', 'LtE': 'Z.leb', 'Gt': 'Z.gtb', 'GtE': 'Z.geb'}.get(opn)
-            if opn == 'NotEq':
-                return '(negb (Z.eqb %s %s))' % (a[0], b[0])
-            if f:
-                return '(%s %s %s)' % (f, a[0], b[0])
-        if 'float' in (ta, tb) and ta in ('int', 'float') and tb in ('int', 'float'):
-            fa, fb = self.as_float(a), self.as_float(b)
-            if opn == 'Lt':
-                return '(PrimFloat.ltb %s %s)' % (fa, fb)
-            if opn == 'LtE':
-                return '(PrimFloat.leb %s %s)' % (fa, fb)
-            if opn == 'Gt':
-                return '(PrimFloat.ltb %s %s)' % (fb, fa)
-            if opn == 'GtE':
-                return '(PrimFloat.leb %s %s)' % (fb, fa)
-            if opn == 'Eq':
-                return '(PrimFloat.eqb %s %s)' % (fa, fb)
-        fail(node, 'comparison %s on %s,%s' % (opn, ta, tb))
-
-    def contains(self, a, b_node_or_pair, node):
-        b = b_node_or_pair
-        if isinstance(b, tuple) and b[1] == 'str' and a[1] == 'str':
-            return '(substr_in %s %s)' % (a[0], b[0])
-        if isinstance(b, tuple) and b[1] == 'intlist' and a[1] == 'int':
-            return '(zmem %s %s)' % (a[0], b[0])
-        if isinstance(b, tuple) and b[1] == 'strlist' and a[1] == 'str':
-            return '(smem %s %s)' % (a[0], b[0])
-        fail(node, 'membership test')
-
-    def tr_Compare(self, n):
-        operands = [n.left] + list(n.comparators)
-        tvals = []
-        for i, o in enumerate(operands):
-            if isinstance(o, ast.Tuple) and i > 0 and isinstance(n.ops[i - 1], (ast.In, ast.NotIn)):
-                elts = [self.tr(e) for e in o.elts]
-                tys = {t for _, t in elts}
-                if tys == {'int'}:
-                    tvals.append(('[' + '; '.join(s for s, _ in elts) + ']', 'intlist'))
-                elif tys == {'str'}:
-                    tvals.append(('[' + '; '.join(s for s, _ in elts) + ']', 'strlist'))
-                else:
-                    fail(o, 'mixed tuple')
-            else:
-                tvals.append(self.tr(o))
-        parts = []
-        for i, op in enumerate(n.ops):
-            parts.append(self.cmp1(op, tvals[i], tvals[i + 1], n))
-        if len(parts) == 1:
-            return (parts[0], 'bool')
-        return ('(' + ' && '.join(parts) + ')', 'bool')
-
-    def tr_IfExp(self, n):
-        c = self.as_bool(self.tr(n.test), n.test)
-        a, b = self.tr(n.body), self.tr(n.orelse)
-        if a[1] != b[1]:
-            if {a[1], b[1]} == {'int', 'float'}:
-                return ('(if %s then %s else %s)' % (c, self.as_float(a), self.as_float(b)), 'float')
-            fail(n, 'branches of different type')
-        return ('(if %s then %s else %s)' % (c, a[0], b[0]), a[1])
-
-    def tr_Subscript(self, n):
-        v = self.tr(n.value)
-        idx = n.slice
-        if v[1] == 'str' and isinstance(idx, ast.Constant) and isinstance(idx.value, int) and idx.value >= 0:
-            return ('(py_index %s %d)' % (v[0], idx.value), 'str')
-        if v[1] == 'color' and isinstance(idx, ast.Constant) and isinstance(idx.value, int) and 0 <= idx.value < 4:
-            return ('(c%d %s)' % (idx.value, v[0]), 'float')
-        fail(n, 'subscript')
-
-    def tr_Call(self, n):
-        f = n.func
-        if n.keywords:
-            fail(n, 'keyword arguments')
-        if isinstance(f, ast.Name):
-            name = f.id
-            args = [self.tr(a) for a in n.args]
-            if name == 'len' and len(args) == 1 and args[0][1] == 'str':
-                return ('(zlen %s)' % args[0][0], 'int')
-            if name == 'int' and len(args) == 1 and args[0][1] == 'str':
-                return ('(py_int %s)' % args[0][0], 'int')
-            if name == 'float' and len(args) == 1:
-                return (self.as_float(args[0]), 'float')
-            if name == 'round' and len(args) == 1:
-                return ('(py_round %s)' % self.as_float(args[0]), 'rounded')
-            if name in ('max', 'min') and len(args) == 2:
-                # Python: max(a, b) = b if b > a else a ; min(a, b) = b if b < a else a
-                return ('(py_%s %s %s)' % (name, self.as_float(args[0]), self.as_float(args[1])), 'float')
-            if name in self.funcs:
-                cn, argtys, rt = self.funcs[name]
-                if len(argtys) != len(args):
-                    fail(n, 'arity')
-                out = []
-                for (s, t), want in zip(args, argtys):
-                    out.append(self.as_float((s, t)) if want == 'float' else s)
-                    if want != 'float' and t != want:
-                        fail(n, 'argument type')
-                return ('(%s %s)' % (cn, ' '.join(out)), rt)
-            fail(n, 'call of ' + name)
-        if isinstance(f, ast.Attribute):
-            if f.attr in ('isdigit', 'isdecimal') and not n.args:
-                v = self.tr(f.value)
-                if v[1] == 'str':
-                    return ('(str_%s %s)' % (f.attr, v[0]), 'bool')
-            if f.attr == 'format' and isinstance(f.value, ast.Constant) and f.value.value == '{:02d}' and len(n.args) == 1:
-                a = self.tr(n.args[0])
-                if a[1] == 'int':
-                    return ('(fmt_02d %s)' % a[0], 'str')
-            dotted = None
-            try:
-                dotted = self.dotted(f)
-            except Unsupported:
-                pass
-            if dotted is not None:
-                short = dotted.split('.')[-1]
-                for key in (dotted, short):
-                    if key in self.funcs:
-                        cn, argtys, rt = self.funcs[key]
-                        args = [self.tr(a) for a in n.args]
-                        if len(argtys) != len(args):
-                            fail(n, 'arity')
-                        for (s, t), want in zip(args, argtys):
-                            if t != want:
-                                fail(n, 'argument type')
-                        return ('(%s %s)' % (cn, ' '.join(s for s, _ in args)), rt)
-        fail(n, 'call')
-
-
-def is_self_attr(node, attr=None):
-    return (isinstance(node, ast.Attribute) and isinstance(node.value, ast.Name)
-            and node.value.id == 'self' and (attr is None or node.attr == attr))
-
-
-class Body:
-    """Translate a statement list in 'return style' to one Coq expression."""
-
-    def __init__(self, ex, rettype, self_attr=None):
-        self.ex = ex
-        self.rettype = rettype
-        self.self_attr = self_attr  # when set, `self.<attr> = E` acts as `return E`
-
-    def block(self, stmts, rest=None):
-        """Translate stmts; `rest` is the Coq text that follows when stmts fall through."""
-        if not stmts:
-            if rest is None:
-                raise Unsupported('control reaches the end of a function without a return')
-            return rest
-        s, tail = stmts[0], stmts[1:]
-        if isinstance(s, ast.Expr) and isinstance(s.value, ast.Constant) and isinstance(s.value.value, str):
-            return self.block(tail, rest)   # docstring
-        if isinstance(s, ast.Return):
-            if s.value is None:
-                fail(s, 'bare return')
-            return self.ret(s.value)
-        if isinstance(s, ast.If):
-            c = self.ex.as_bool(self.ex.tr(s.test), s.test)
-            after = self.block(tail, rest) if (tail or rest is not None) else None
-            then = self.block(s.body, after)
-            if s.orelse:
-                els = self.block(s.orelse, after)
-            else:
-                if after is None:
-                    raise Unsupported('if without else at end of function')
-                els = after
-            return '(if %s\n   then %s\n   else %s)' % (c, then, els)
-        if isinstance(s, ast.Assign) and len(s.targets) == 1:
-            tgt = s.targets[0]
-            # accumulate pattern:  X = set() ; for v in range(a, b): if c: X.add(v)
-            if (self.is_set_ctor(s.value) and tail and isinstance(tail[0], ast.For)
-                    and (is_self_attr(tgt, self.self_attr) or isinstance(tgt, ast.Name))):
-                expr = self.accumulate(tgt, tail[0])
-                if is_self_attr(tgt, self.self_attr):
-                    if tail[1:]:
-                        fail(s, 'statements after accumulate on self attribute')
-                    return expr
-                self.ex.env[tgt.id] = 'intset'
-                return '(let %s := %s in\n   %s)' % (tgt.id, expr, self.block(tail[1:], rest))
-            if is_self_attr(tgt, self.self_attr):
-                if tail:
-                    fail(s, 'statements after assignment to self attribute')
-                return self.ret(s.value)
-            if isinstance(tgt, ast.Name):
-                v = self.ex.tr(s.value)
-                if tgt.id in self.ex.env and self.ex.env[tgt.id] != v[1]:
-                    # rebinding with another type (e.g. raw_time = float(raw_time))
-                    pass
-                self.ex.env[tgt.id] = v[1]
-                return '(let %s := %s in\n   %s)' % (tgt.id, v[0], self.block(tail, rest))
-        fail(s, 'unsupported statement')
-
-    def is_set_ctor(self, v):
-        return isinstance(v, ast.Call) and isinstance(v.func, ast.Name) and v.func.id == 'set' and not v.args
-
-    def accumulate(self, tgt, loop):
-        if loop.orelse or not isinstance(loop.target, ast.Name):
-            fail(loop, 'for loop shape')
-        it = loop.iter
-        if not (isinstance(it, ast.Call) and isinstance(it.func, ast.Name) and it.func.id == 'range' and len(it.args) == 2):
-            fail(loop, 'for loop iterator')
-        a, b = self.ex.tr(it.args[0]), self.ex.tr(it.args[1])
-        if a[1] != 'int' or b[1] != 'int':
-            fail(loop, 'range bounds')
-        if len(loop.body) != 1 or not isinstance(loop.body[0], ast.If) or loop.body[0].orelse:
-            fail(loop, 'for loop body')
-        inner = loop.body[0]
-        if len(inner.body) != 1:
-            fail(loop, 'for loop body')
-        add = inner.body[0]
-        ok = (isinstance(add, ast.Expr) and isinstance(add.value, ast.Call)
-              and isinstance(add.value.func, ast.Attribute) and add.value.func.attr == 'add'
-              and ast.dump(add.value.func.value) == ast.dump(tgt).replace('Store()', 'Load()')
-              and len(add.value.args) == 1 and isinstance(add.value.args[0], ast.Name)
-              and add.value.args[0].id == loop.target.id)
-        if not ok:
-            fail(loop, 'for loop body is not X.add(v)')
-        saved = dict(self.ex.env)
-        self.ex.env[loop.target.id] = 'int'
-        c = self.ex.as_bool(self.ex.tr(inner.test), inner.test)
-        self.ex.env = saved
-        return '(List.filter (fun %s => %s) (zrange %s %s))' % (loop.target.id, c, a[0], b[0])
-
-    def ret(self, value):
-        # special right-hand sides
-        if (isinstance(value, ast.Call) and isinstance(value.func, ast.Attribute)
-                and value.func.attr == 'copy' and not value.args):
-            v = self.ex.tr(value.func.value)
-            if v[1] == 'intset':
-                return v[0]
-        if (isinstance(value, ast.Call) and isinstance(value.func, ast.Name) and value.func.id == 'set'
-                and len(value.args) == 1 and isinstance(value.args[0], ast.List) and len(value.args[0].elts) == 1):
-            v = self.ex.tr(value.args[0].elts[0])
-            if v[1] == 'int':
-                return '[%s]' % v[0]
-        v = self.ex.tr(value)
-        if self.rettype == 'float':
-            return self.ex.as_float(v)
-        if self.rettype == 'bool':
-            return self.ex.as_bool(v, value)
-        if v[1] != self.rettype:
-            fail(value, 'return type %s, wanted %s' % (v[1], self.rettype))
-        return v[0]
-
-
-COQ_TYPES = {'int': 'Z', 'str': 'string', 'bool': 'bool', 'float': 'float', 'intset': 'list Z'}
-
-
-def find_class(tree, name):
-    for n in tree.body:
-        if isinstance(n, ast.ClassDef) and n.name == name:
-            return n
-    raise Unsupported('class %s not found' % name)
-
-
-def find_func(body, name):
-    for n in body:
-        if isinstance(n, ast.FunctionDef) and n.name == name:
-            return n
-    raise Unsupported('function %s not found' % name)
-
-
-def translate_function(fn, coq_name, params, rettype, consts, funcs, self_attr=None):
-    """params: list of (python name, type) excluding self."""
-    args = [a.arg for a in fn.args.args if a.arg != 'self']
-    if args != [p for p, _ in params]:
-        raise Unsupported('%s: parameters are %s, expected %s' % (fn.name, args, [p for p, _ in params]))
-    if fn.args.vararg or fn.args.kwarg or fn.args.kwonlyargs or fn.args.defaults:
-        raise Unsupported('%s: unsupported signature' % fn.name)
-    ex = Expr(dict(params), consts, funcs)
-    body = Body(ex, rettype, self_attr).block(fn.body)
-    sig = ' '.join('(%s : %s)' % (p, COQ_TYPES[t]) for p, t in params)
-    return 'Definition %s %s : %s :=\n  %s.\n' % (coq_name, sig, COQ_TYPES[rettype], body)
-
-
-# --------------------------------------------------------------------------
-# time_pattern.py
-
-def gen_time_pattern(repo):
-    path = os.path.join(repo, 'bardolph/lib/time_pattern.py')
-    tree = ast.parse(open(path).read())
-    cls = find_class(tree, 'TimePattern')
-    consts = {}
-    out = []
-    # class constants
-    for n in cls.body:
-        if isinstance(n, ast.Assign) and len(n.targets) == 1 and isinstance(n.targets[0], ast.Name):
-            name = n.targets[0].id
-            v = n.value
-            if name in ('HOURS_24', 'MINUTES_60'):
-                ok = (isinstance(v, ast.Call) and isinstance(v.func, ast.Name) and v.func.id == 'set'
-                      and len(v.args) == 1 and isinstance(v.args[0], ast.Call)
-                      and isinstance(v.args[0].func, ast.Name) and v.args[0].func.id == 'range'
-                      and len(v.args[0].args) == 2
-                      and all(isinstance(a, ast.Constant) and isinstance(a.value, int) for a in v.args[0].args))
-                if not ok:
-                    fail(n, 'HOURS_24/MINUTES_60 shape')
-                a, b = [x.value for x in v.args[0].args]
-                out.append('Definition %s : list Z := zrange %s %s.\n' % (name, coq_z(a), coq_z(b)))
-                consts['TimePattern.' + name] = (name, 'intset')
-            elif name == 'REGEX_SPEC':
-                if not (isinstance(v, ast.Constant) and isinstance(v.value, str)):
-                    fail(n, 'REGEX_SPEC')
-                out.append('Definition REGEX_SPEC : string := %s.\n' % coq_string(v.value))
-            elif name == 'REGEX':
-                if ast.unparse(v) != 're.compile(REGEX_SPEC)':
-                    fail(n, 'REGEX is not re.compile(REGEX_SPEC)')
-            else:
-                fail(n, 'unexpected class constant')
-    funcs = {}
-    out.append(translate_function(find_func(cls.body, '_number_match'), 'number_match',
-                                  [('number', 'int'), ('pattern', 'str')], 'bool', consts, funcs))
-    funcs['_number_match'] = ('number_match', ['int', 'str'], 'bool')
-    out.append(translate_function(find_func(cls.body, 'hours_valid'), 'hours_valid',
-                                  [('hours', 'str')], 'bool', consts, funcs))
-    out.append(translate_function(find_func(cls.body, 'minutes_valid'), 'minutes_valid',
-                                  [('minutes', 'str')], 'bool', consts, funcs))
-    funcs['hours_valid'] = ('hours_valid', ['str'], 'bool')
-    funcs['minutes_valid'] = ('minutes_valid', ['str'], 'bool')
-    out.append(translate_function(find_func(cls.body, 'patterns_valid'), 'patterns_valid',
-                                  [('hours', 'str'), ('minutes', 'str')], 'bool', consts, funcs))
-    out.append(translate_function(find_func(cls.body, '_init_hour_set'), 'init_hour_set',
-                                  [('pattern', 'str')], 'intset', consts, funcs, self_attr='_hour_set'))
-    out.append(translate_function(find_func(cls.body, '_init_minute_set'), 'init_minute_set',
-                                  [('pattern', 'str')], 'intset', consts, funcs, self_attr='_minute_set'))
-    # Structural facts about the methods that the hand-written wrapper in
-    # Time/TimePattern.v relies on; emitted as booleans that a lemma there
-    # requires to be true (so a change of shape breaks that lemma).
-    shape = time_pattern_shape(cls)
-    for k, v in shape.items():
-        out.append('Definition shape_%s : bool := %s.\n' % (k, 'true' if v else 'false'))
-    header = ('(* GENERATED by tools/py2coq.py from bardolph/lib/time_pattern.py -- do not edit. *)\n'
-              'From Coq Require Import ZArith String List Bool.\n'
-              'From Bardolph Require Import Base.PyStr.\n'
-              'Open Scope string_scope.\nOpen Scope list_scope.\nImport ListNotations.\nOpen Scope Z_scope.\nOpen Scope bool_scope.\n\n')
-    return header + '\n'.join(out)
-
-
-def norm(src):
-    return ast.unparse(ast.parse(src))
-
-
-def fn_src(fn):
-    """Body of a function as normalised source, docstring removed."""
-    body = [s for s in fn.body
-            if not (isinstance(s, ast.Expr) and isinstance(s.value, ast.Constant) and isinstance(s.value.value, str))]
-    return '\n'.join(ast.unparse(s) for s in body)
-
-
-def time_pattern_shape(cls):
-    """The parts of TimePattern that are modelled by hand are tied to the source by
-    exact comparison of their (normalised) text with the text the model was written
-    from.  Two accepted texts exist for the representation: the original 'pair of sets'
-    and the 'list of alternatives' (see Time/TimePattern.v)."""
-    shape = {}
-    init = fn_src(find_func(cls.body, '__init__'))
-    match = fn_src(find_func(cls.body, 'match'))
-    union = fn_src(find_func(cls.body, 'union'))
-    from_string = fn_src(find_func(cls.body, 'from_string'))
-    pair_init = norm("""
-self._repr = 'TimePattern("{}", "{}")'.format(hours, minutes)
-self._hour_set, self._minute_set = (set(), set())
-if hours and minutes:
-    self._init_hour_set(hours)
-    self._init_minute_set(minutes)
-""")
-    alt_init = pair_init + '\n' + norm("self._alternatives = [(self._hour_set, self._minute_set)]")
-    pair_match = norm("return hours in self._hour_set and minutes in self._minute_set")
-    alt_match = norm("return any((hours in hour_set and minutes in minute_set for hour_set, minute_set in self._alternatives))")
-    pair_union = norm("self._hour_set.update(other._hour_set)\nself._minute_set.update(other._minute_set)")
-    alt_union = norm("self._alternatives.extend(other._alternatives)")
-    shape['repr_pair'] = (init == pair_init and match == pair_match and union == pair_union)
-    shape['repr_alternatives'] = (init == alt_init and match == alt_match and union == alt_union)
-    fs_head = norm("""
-the_match = TimePattern.REGEX.match(pattern)
-if the_match is not None:
-    hours, minutes, *_ = the_match.groups()
-    if TimePattern.patterns_valid(hours, minutes):
-        return TimePattern(hours, minutes)
-""")
-    shape['from_string_none'] = (from_string == fs_head + '\n' + norm("return None"))
-    shape['from_string_empty'] = (from_string == fs_head + '\n' + norm("return TimePattern(None, None)"))
-    has_copy = any(isinstance(n, ast.FunctionDef) and n.name == 'copy' for n in cls.body)
-    if has_copy:
-        copy_src = fn_src(find_func(cls.body, 'copy'))
-        shape['copy_alternatives'] = (copy_src == norm("""
-result = TimePattern(None, None)
-result._repr = self._repr
-result._alternatives = list(self._alternatives)
-return result
-"""))
-    else:
-        shape['copy_alternatives'] = False
-    known = {'__init__', '__repr__', 'from_string', 'patterns_valid', 'hours_valid', 'minutes_valid',
-             'union', 'match', '_init_hour_set', '_init_minute_set', '_number_match', 'copy'}
-    names = {n.name for n in cls.body if isinstance(n, ast.FunctionDef)}
-    shape['no_unknown_methods'] = names <= known
-    return shape
-
-
-def gen_char_classes(repo):
-    """ASCII code points in the character classes the lexer's regular expressions and
-    the str predicates use, dumped from the running interpreter (re / str)."""
-    import re
-    def codes(pred):
-        return '[' + '; '.join(str(i) for i in range(128) if pred(chr(i))) + ']%nat'
-    out = ['(* GENERATED by tools/py2coq.py from the running Python interpreter -- do not edit. *)',
-           'From Coq Require Import List.', 'Import ListNotations.', '']
-    out.append('Definition re_space_codes : list nat := %s.' % codes(lambda c: re.match(r'\s', c) is not None))
-    out.append('Definition re_digit_codes : list nat := %s.' % codes(lambda c: re.match(r'\d', c) is not None))
-    out.append('Definition re_word_codes : list nat := %s.' % codes(lambda c: re.match(r'\w', c) is not None))
-    out.append('Definition str_isdigit_codes : list nat := %s.' % codes(lambda c: c.isdigit()))
-    out.append('Definition str_isdecimal_codes : list nat := %s.' % codes(lambda c: c.isdecimal()))
-    return '\n'.join(out) + '\n'
-
-
-GENERATORS = {
-    'CharClasses.v': gen_char_classes,
-    'TimePatternGen.v': gen_time_pattern,
-}
+def generators():
+    gens = {}
+    for path in sorted(glob.glob(os.path.join(HERE, 'gen_*.py'))):
+        mod = importlib.import_module(os.path.basename(path)[:-3])
+        gens.update(mod.GENERATORS)
+    return gens
 
 
 def main(argv):
     repo = argv[1] if len(argv) > 1 else '/repo'
-    outdir = argv[2] if len(argv) > 2 else '/verif/coq/Gen'
+    outdir = argv[2] if len(argv) > 2 else os.path.join(os.path.dirname(HERE), 'coq', 'Gen')
     os.makedirs(outdir, exist_ok=True)
     status = 0
-    for fname, gen in GENERATORS.items():
+    for fname, gen in generators().items():
         target = os.path.join(outdir, fname)
         try:
             text = gen(repo)
-        except (Unsupported, SyntaxError, OSError) as ex:
+        except (Unsupported, SyntaxError, OSError, KeyError, IndexError, AttributeError, ValueError) as ex:
             # fail closed: the generated file states why, and does not compile
             text = '(* GENERATION FAILED: %s *)\nDefinition translator_failed : False := I.\n' % str(ex).replace('*)', '* )')
             print('py2coq: %s: FAILED: %s' % (fname, ex))
